@@ -159,6 +159,12 @@ def any_int(tag, lo, hi):
     return max(lo, min(hi, n))
 
 
+def any_values(tag="v"):
+    """an unknown list of byte-string values chosen by the environment (e.g. what other threads appended to a
+    shared registry meanwhile).  Symbolically: a fresh list of symbolic length; natively (replay): empty."""
+    return []
+
+
 def seq_uncons(s):
     """(first element, rest) of a non-empty sequence; the proof must show it is non-empty"""
     return s[0], s[1:]
